@@ -78,6 +78,8 @@ pub struct Trace {
     pub panicked: Option<String>,
     pub fills: u64,
     pub max_zero_run: u64,
+    /// frame calls made in the middle of a frame that came back with ANOTHER frame (C13: they must deliver the rest of the current one)
+    pub left_frame: Vec<String>,
 }
 
 struct Cur {
@@ -96,7 +98,7 @@ pub fn run_ops(bytes: &[u8], sched: &[usize], visible0: usize, opts: Opts, tbits
     let visible: Rc<Cell<usize>> = pr.visible.clone();
     let (fills, zr) = (pr.fills.clone(), pr.max_zero_run.clone());
     visible.set(visible0.min(bytes.len()));
-    let mut tr = Trace { results: vec![], delivered_after: vec![], delivered: vec![], panicked: None, fills: 0, max_zero_run: 0 };
+    let mut tr = Trace { results: vec![], delivered_after: vec![], delivered: vec![], panicked: None, fills: 0, max_zero_run: 0, left_frame: vec![] };
     // read_info consumes the Decoder: with a growing input it can only be retried by building a new decoder, which is what we do
     let mut dec = Some(open_decoder(pr, opts, tbits, limit));
     let mut rd: Option<Rd> = None;
@@ -205,6 +207,11 @@ pub fn run_ops(bytes: &[u8], sched: &[usize], visible0: usize, opts: Opts, tbits
                         // the buffer holds what the row calls have delivered of this frame so far (rest: fill pattern)
                         let mut buf = vec![fill; sz];
                         let had_rows = cur.started && cur.rows_done > 0;
+                        let expected_rows = if !cur.started { 0 } else if rd.info().interlaced {
+                            if (cur.w as u64 * cur.h as u64) > (1 << 22) { usize::MAX } else { adam7_rows_ref(cur.w, cur.h).len() }
+                        } else { cur.h as usize };
+                        let mid_frame = had_rows && cur.rows_done < expected_rows;
+                        let cur_fctl = cur.fctl.clone();
                         if had_rows {
                             let n = cur.buf.len().min(sz);
                             buf[..n].copy_from_slice(&cur.buf[..n]);
@@ -216,6 +223,9 @@ pub fn run_ops(bytes: &[u8], sched: &[usize], visible0: usize, opts: Opts, tbits
                             Ok(Ok(oi)) => {
                                 let n = oi.buffer_size().min(buf.len());
                                 let fctl = rd.info().frame_control.as_ref().map(fctl_str).unwrap_or_else(|| "none".into());
+                                if mid_frame && fctl != cur_fctl && expected_rows != usize::MAX {
+                                    tr.left_frame.push(format!("after {} of {} rows of frame [{}] next_frame returned frame [{}]", cur.rows_done, expected_rows, cur_fctl, fctl));
+                                }
                                 let via = if had_rows { format!("{}F", cur.via) } else { "F".to_string() };
                                 let rb = oi.width as usize * samples(oi.color_type as u8) * oi.bit_depth as usize;
                                 tr.delivered.push(Delivered { fctl, pixels: buf[..n].to_vec(), via, line: oi.line_size, row_bits: rb });
